@@ -407,4 +407,31 @@ example : mpoEntry (extendGate 4 (trivialT1 (cx : M4 CRat)) trivialT2 2 true) [1
 /-- `generatorSlots` on a reversed pair: factor A (= generator[0]) sits on the higher site -/
 example : generatorSlots 3 1 5 = [Slot.I, Slot.B, Slot.I, Slot.A, Slot.I] := by decide
 
+/-- **C18.4d** (row / column labelling of the contracted MPO in the tie) `bitsOf L r` lists the `L` binary digits of `r`,
+    most significant first — site 0 is the leftmost Kronecker factor —, so it inverts the big-endian index
+    `Σ b_i 2^(L-1-i)` on `r < 2^L` -/
+theorem bitsOf_spec (L r : Nat) :
+    (bitsOf L r).length = L ∧
+    (bitsOf L r).foldl (fun acc b => 2 * acc + b.val) 0 = r % 2 ^ L := by
+  constructor
+  · induction L with
+    | zero => rfl
+    | succ n ih => simp [bitsOf, ih]
+  · have key : ∀ (L acc : Nat), (bitsOf L r).foldl (fun acc b => 2 * acc + b.val) acc = acc * 2 ^ L + r % 2 ^ L := by
+      intro L
+      induction L with
+      | zero => intro acc; simp [bitsOf, Nat.mod_one]
+      | succ n ih =>
+        intro acc
+        simp only [bitsOf, List.foldl_cons]
+        rw [ih]
+        have h1 : r % 2 ^ (n + 1) = (r / 2 ^ n % 2) * 2 ^ n + r % 2 ^ n := by
+          rw [pow_succ, Nat.mod_mul, Nat.mul_comm]
+          omega
+        rw [h1, pow_succ]
+        ring
+    simpa using key L 0
+
+example : bitsOf 3 6 = [1, 1, 0] := by decide
+
 end Yaqs.Gates
